@@ -1184,6 +1184,8 @@ def _pure_looking(e: ast.AST, allow: set) -> bool:
     for x in ast.walk(e):
         if id(x) in allow:
             continue
+        if isinstance(x, ast.Call) and isinstance(x.func, ast.Name) and x.func.id in ("len", "abs", "float", "int", "min", "max", "sum", "round", "str", "bool") and not x.keywords:
+            continue  # a builtin that only looks at its arguments
         if not isinstance(x, (ast.Name, ast.Constant, ast.Attribute, ast.Subscript, ast.Slice, ast.BinOp, ast.UnaryOp, ast.Compare, ast.BoolOp, ast.Tuple, ast.List,
                               ast.operator, ast.unaryop, ast.cmpop, ast.boolop, ast.expr_context, ast.keyword)):
             return False
@@ -1234,7 +1236,7 @@ def expand_helper_comprehensions(trees: Dict[str, ast.Module], known: Optional[s
         if not calls or any(c is v for c in calls):
             return [stmt]
         outer_ok = set()
-        if isinstance(stmt, ast.Expr) and isinstance(v, ast.Call) and isinstance(v.func, ast.Attribute) and v.func.attr == "append" and len(v.args) == 1 and not v.keywords:
+        if isinstance(stmt, ast.Expr) and isinstance(v, ast.Call) and isinstance(v.func, ast.Attribute) and v.func.attr in ("append", "extend") and len(v.args) == 1 and not v.keywords:
             outer_ok = {id(v)}
         top = [c for c in calls if not any(c is not d and any(c is y for y in ast.walk(d)) for d in calls)]
         allow = outer_ok | {id(y) for c in top for y in ast.walk(c)}
